@@ -27,7 +27,9 @@ RULE = (
     "sub-expressions, deliberate duplicates and near-duplicates) plus per transformation: an injective renaming; a generated "
     "fuse decision per candidate with a faithful fused-node builder; a generated key map node->{0,1,2} for split; for expand a "
     "generated sub-graph (1-5 nodes; inner names may carry the expanded node's own dotted prefix; leaves are output-less sinks or "
-    "terminals declaring the default output), input map and output map for a generated subset of nodes. A counted class uses output names "
+    "terminals declaring the default output), input map and output map for a generated subset of nodes (consumed nodes, output-less "
+    "sinks, and terminal nodes that declare outputs); for dedup optionally a history: de-duplicate, make two nodes equal in place, "
+    "de-duplicate again. A counted class uses output names "
     "that collide with node attributes (name, payload, inputs, outputs, copy) and input names that collide with callback "
     "parameters (node, n, s, p). non-trivial = the graph has >=1 shared sub-expression and >=2 sinks, and per transformation: "
     "dedup >=1 real duplicate; fuse >=1 fusion performed; expand >=1 expanded node with a consumer; split >=1 cut edge; "
@@ -471,6 +473,8 @@ def _check_expand(c, g, objs, spec, classes) -> bool:
         classes.append("expanded_with_consumer")
     if any(exps[i]["omap"] for i in exps):
         classes.append("nontrivial_output_map")
+    if any(spec["nodes"][int(i)]["outputs"] != [] and int(i) not in consumed for i in exps):
+        classes.append("expanded_terminal_with_outputs")
     if exps:
         classes.append("expanded")
     return bool(with_consumer)
